@@ -18,8 +18,21 @@ T2: generated on-disk layouts (versioned / unknown / ignored / detritus-named
     layout to the Lean model.  For all 16 option combinations (plus the prompt
     answered yes/no) the real `clean_tree()` is run on a copy and compared
     with the model on: extras(), the list handed to delete_items, whether an
-    error escaped, the set of surviving paths, and the directories on which
-    ControlDir.open succeeds.  `is_detritus` is compared on a name corpus.
+    error escaped, the set of surviving paths, the directories on which
+    ControlDir.open succeeds, and the surviving paths of the observed area
+    OUTSIDE the tree.  The model side is the file-system refinement
+    (Model/C46World.lean: os.unlink / shutil.rmtree chosen per kind with the
+    lstat-based isdir, kernel path resolution through links to directories into
+    the outside area, `if not dry_run` inside delete_items); theorem
+    `clean_world_refines` ties it to the abstract layout model all other
+    theorems speak about.  After the add, a versioned directory may be replaced
+    on disk by a link to the outside directory (which holds files the inventory
+    / index does not know), a link into the tree, a dangling link or a file;
+    in git trees a versioned file by a directory with an unknown file in it.
+    The hypotheses of the theorems (wf, unvClosed, invShaped) are evaluated on
+    every real layout, by the driver and independently in Python; a layout that
+    violates one is reported as a broken tie.  `is_detritus` and
+    `controldir.is_control_filename` are compared on name corpora.
 Oracle (independent of the model): from directory snapshots before/after —
     nothing is created; every removed path is unversioned and has nothing
     versioned below it; every top-most removed path is in a requested class
@@ -53,6 +66,13 @@ with a concrete layout unless noted):
   m8 git extras(): index paths in subdirectories not subtracted (versioned files deleted)
   h1 harmless: filter rewritten as comprehension + helper, iter_deletables as one expression (clean)
   fix: the proposed repair (stays clean, the three finding families disappear, model mode `x`)
+  n1 bzr extras(): `osutils.isdir(dirabs)` -> `os.path.isdir(dirabs)` (a versioned directory that has
+     become a link to an outside directory is entered: `clean-tree --unknown` unlinks the outside
+     file through the link; needs the replaced-directory family; oracle: outside canary)
+  n2 git _iter_files_recursive: `os.walk(..., followlinks=True)` (outside file deleted through any
+     link to the outside directory)
+  n3 delete_items: `if not dry_run` guards rmtree only (a dry run unlinks files; m3 is the converse)
+  h2 harmless: delete_items with `if dry_run: note; continue` first (clean)
   s1 seeded: the repaired filter memoises parent directories "free of control names" before their own
      ancestors are checked - needs >= 2 candidates sharing a subdirectory chain below a nested control
      directory that extras() descends into (git outer + nested bzr; bzr outer versioning a directory
@@ -71,18 +91,31 @@ THEOREMS = [
     "inside_tree", "extras_antichain", "clean_exact", "clean_only_selected",
     "rejected_candidate_kept", "nested_branch_top_level_kept", "git_nested_git_kept", "fixed_filter_protects",
     "nested_branch_deep_witness", "git_tree_nested_bzr_witness", "bzr_tree_git_controldir_witness",
+    # the repaired filter and the exact effect together
+    "fixed_no_ctl_component", "control_paths_survive", "nested_tree_survives",
+    # inventory shape instead of unvClosed
+    "invShaped_iff_unvClosed", "never_versioned_inv",
+    # file-system refinement: primitives per kind, links, the outside, dry run inside delete_items
+    "selected_dirs_above", "lstat_prim_accepts", "clean_world_refines", "outside_unchanged",
+    "dry_run_deletes_nothing", "dry_run_noop_world", "follow_links_witness", "stat_isdir_witness",
 ]
 T1_EQUALITY_THEOREMS = ["is_detritus_gen_eq"]
 RULE = ("case = (format, generated layout, option combination); every layout is run with all 16 combinations "
         "of unknown/ignored/detritus/dry_run and two prompted runs; non-trivial = the real run selects at "
         "least one path and keeps at least one candidate; distinct by (format, layout with flags, options)")
 ASSUMPTIONS = [
-    "versioned entries have the same kind on disk as in the inventory / index; names are ASCII and NFC",
+    "bzr: an entry versioned as a file is not a directory on disk (the inventory kind is not part of the layout; a "
+    "versioned directory that became a link or a file, and in git trees a versioned file that became a directory, "
+    "are generated); names are ASCII and NFC",
     "ControlDir.open(dir) succeeds iff dir has an entry .bzr/.git the probers recognise (compared with the real probe on every directory of every layout)",
     "tree.is_ignored is a parameter (property C48): its value per path is read from the real tree",
 ]
-TRUSTED = ["the file system is modelled as a forest of entries; shutil.rmtree / os.unlink as removal of a subtree; "
-           "permission errors and concurrent modification are out of scope"]
+TRUSTED = ["the file system is modelled as a forest of entries for the tree, a second forest for the observed area "
+           "outside it and the targets of the links into that area; os.unlink / shutil.rmtree as removal of an "
+           "entry / a subtree after kernel-style path resolution (links followed at every component but the last), "
+           "unlink refusing directories and rmtree refusing everything else; links to directories that do not point "
+           "into the outside area are not resolved by the model (proved never to be traversed); permission errors "
+           "and concurrent modification are out of scope"]
 
 DETRITUS_SUFFIXES = (".THIS", ".BASE", ".OTHER", "~", ".tmp")   # the statement's "detritus-named"
 
@@ -155,7 +188,7 @@ DIRS = ["d", "e", "sub", "build", "t.tmp", "nest", "old~", "ig", "w"]
 RULES = ["*.o", "build", "ign*", "*.pyc", "!keep.o", "sub/*.txt", "ig/", "d", "./a", "*.tmp", "RE:.*\\.orig", "e/x~"]
 
 
-def gen_spec(rng, fmt):
+def gen_spec(rng, fmt, replace=False):
     """a layout: entries = [path, type, add?]; parents first.
     types: f file, d directory, B valid nested bzr control dir, G valid nested git
     control dir, eb empty dir, gf gitfile, gg garbage file, Lo link to the outside
@@ -251,7 +284,38 @@ def gen_spec(rng, fmt):
     rules = rng.sample(RULES, rng.randint(0, 4))
     # the ignore file: versioned, unknown or absent
     igv = rng.random() < 0.5
-    return dict(fmt=fmt, entries=entries, rules=rules, ignore_versioned=igv)
+    spec = dict(fmt=fmt, entries=entries, rules=rules, ignore_versioned=igv)
+    if replace:         # (off by default: C11 builds its layouts with this function too)
+        repl = gen_replace(rng, fmt, entries)
+        if repl:
+            spec["replace"] = repl
+    return spec
+
+
+def gen_replace(rng, fmt, entries):
+    """after the add: a versioned directory (bzr: in the inventory; git: holding an index entry) is
+    replaced on disk by a link to the outside directory / to a directory of the tree / a dangling
+    link / a file; git only: a versioned file is replaced by a directory with an unknown file in it
+    (the inventory kind of a bzr entry is not part of the layout model, see ASSUMPTIONS)"""
+    if rng.random() >= 0.4:
+        return []
+    used = {e[0] for e in entries}
+    if rng.random() < 0.5 and "vdir" not in used:
+        # make sure there is a versioned directory with versioned and unknown content
+        entries.append(["vdir", "d", fmt == "2a"])
+        entries.append(["vdir/tracked", "f", True])
+        entries.append(["vdir/" + rng.choice(["a", "x~", "c.o"]), "f", False])
+    if fmt == "2a":
+        dirs = [e[0] for e in entries if e[1] == "d" and e[2]]
+    else:
+        dirs = [e[0] for e in entries if e[1] == "d" and any(x[2] and x[0].startswith(e[0] + "/") for x in entries)]
+    files = [e[0] for e in entries if e[1] == "f" and e[2]] if fmt == "git" else []
+    out = []
+    if dirs and (not files or rng.random() < 0.75):
+        out.append([rng.choice(dirs), rng.choice(["Lo", "Lo", "Lo", "Li", "f", "Lx"])])
+    elif files:
+        out.append([rng.choice(files), "d"])
+    return out
 
 
 def populated_nested(rng, fmt, entries, used, top=None):
@@ -348,6 +412,29 @@ def materialise(spec, root, outside):
     wt = WorkingTree.open(root)
     if to_add:
         wt.smart_add([os.path.join(root, p) for p in to_add], recurse=False)
+    for path, how in spec.get("replace", ()):
+        full = os.path.join(root, path)
+        if not os.path.lexists(full):
+            continue            # below an entry replaced earlier
+        if os.path.isdir(full) and not os.path.islink(full):
+            shutil.rmtree(full)
+        else:
+            os.unlink(full)
+        if how == "Lo":
+            os.symlink(os.path.join(outside, "od"), full)
+        elif how == "Li":
+            os.symlink(".", full)
+        elif how == "Lx":
+            os.symlink("no-such-target", full)
+        elif how == "f":
+            with open(full, "w") as f:
+                f.write("a file where a versioned directory was\n")
+        elif how == "d":
+            os.makedirs(full)
+            with open(os.path.join(full, "u"), "w") as f:
+                f.write("unknown file in a directory where a versioned file was\n")
+        else:
+            raise ValueError(how)
     return wt
 
 
@@ -401,16 +488,27 @@ def _valid_ctl(root, rel, kind):
     return False
 
 
-def read_flags(wt, root, snap, helper=()):
-    """per entry: kind + the four flags, read from the real tree"""
+def _git_index_paths(wt):
+    from breezy.git.mapping import decode_git_path
+    return {decode_git_path(p) for p, _e in wt._recurse_index_entries()}
+
+
+def read_flags(wt, root, snap, helper=(), exact_git_files=False):
+    """per entry: kind + the four flags, read from the real tree.  `versioned`: bzr - the path is
+    in the inventory; git - a real directory: is_versioned (an index entry lies below it), anything
+    else: the path itself is an index path (a file standing where the index has a directory is
+    *not* versioned although is_versioned(path) says so)"""
     rows = []
     with wt.lock_read():
+        index_paths = _git_index_paths(wt) if exact_git_files and hasattr(wt, "_recurse_index_entries") else None
         for rel in sorted(snap, key=lambda r: r.split("/")):
             k = snap[rel]
             try:
                 v = bool(wt.is_versioned(rel))
             except Exception:
                 v = False
+            if index_paths is not None and k != "d":
+                v = rel in index_paths
             try:
                 ig = wt.is_ignored(rel) is not None
             except Exception:
@@ -446,6 +544,47 @@ def nested_roots(root, snap, own_ctl):
 
 def showpaths(ps):
     return ";".join(sorted(ps)) or "-"
+
+
+def enc_outside(out_snap):
+    """the observed area outside the tree as a layout (parents first)"""
+    rels = sorted(out_snap, key=lambda r: r.split("/"))
+    return ";".join("%s|%s|FFFF" % (rel, "d" if out_snap[rel] == "d" else "f") for rel in rels) or "-"
+
+
+def link_targets(root, outside, snap):
+    """the links-to-directories of the tree that point into the outside area: `link>target`"""
+    real_out = os.path.realpath(outside)
+    out = []
+    for rel, k in sorted(snap.items()):
+        if k != "D":
+            continue
+        tgt = os.path.realpath(os.path.join(root, rel))
+        if tgt.startswith(real_out + os.sep):
+            out.append("%s>%s" % (rel, os.path.relpath(tgt, real_out)))
+    return ";".join(out) or "-"
+
+
+def layout_hypotheses(rows):
+    """the hypotheses of the theorems, evaluated on the real layout independently of the Lean
+    definitions: wf (proper distinct names, only real directories have content), unvClosed (nothing
+    versioned below an unversioned entry), invShaped (the parent of a versioned entry is versioned)"""
+    info = {r[0]: r for r in rows}
+    wf = len(info) == len(rows)
+    unv_closed = inv_shaped = True
+    for rel, k, v, _ig, _va, _h in rows:
+        parts = rel.split("/")
+        if any(c in ("", ".", "..") for c in parts):
+            wf = False
+        if len(parts) > 1:
+            parent = info.get("/".join(parts[:-1]))
+            if parent is None or parent[1] != "d":
+                wf = False
+            elif v and not parent[2]:
+                inv_shaped = False
+        if v and any(not info[a][2] for a in ("/".join(parts[:n]) for n in range(1, len(parts))) if a in info):
+            unv_closed = False
+    return "".join("T" if x else "F" for x in (wf, unv_closed, inv_shaped))
 
 
 OPTS = [(u, i, d, r) for u in (True, False) for i in (True, False) for d in (True, False) for r in (True, False)]
@@ -613,12 +752,23 @@ def run_layout(ctx, spec, viol, cases, lines, outs, opts_list):
     outside = os.path.join(base, "outside")
     wt = materialise(spec, root, outside)
     before = snapshot(root, own_ctl)
-    rows = read_flags(wt, root, before)
+    rows = read_flags(wt, root, before, exact_git_files=True)
     layout = enc_layout(rows)
     with wt.lock_read():
         extras = showpaths(wt.extras())
     nroots = nested_roots(root, before, own_ctl)
     out_before = snapshot_outside(outside)
+    out_layout = enc_outside(out_before)
+    targets = link_targets(root, outside, before)
+    hyp = layout_hypotheses(rows)
+    if hyp != "TTT":
+        # the theorems do not speak about this layout: a gap in the tie, not a property failure
+        ctx.mismatch(dict(spec=spec, hypotheses="wf/unvClosed/invShaped"), hyp, "TTT required by the theorems")
+    ctx.count("hypotheses:" + hyp)
+    if targets != "-":
+        ctx.count("layouts-with-link-to-outside")
+    for _p, how in spec.get("replace", ()):
+        ctx.count("replaced:" + how)
     for o in opts_list:
         u, i, d, r, p = o
         if r or p is False or not (u or i or d):
@@ -635,9 +785,11 @@ def run_layout(ctx, spec, viol, cases, lines, outs, opts_list):
         ctx.case(["clean", fmt, layout, enc_opts(o)], nontrivial=bool(sel) and kept > 0)
         ctx.count("selected:%d" % min(len(sel), 5))
         cases.append(case)
-        lines.append("clean %s %s%s %s" % ("B" if fmt == "2a" else "G", enc_opts(o), filter_mode(), layout))
-        outs.append("%s %s %s %s %s" % (extras, showpaths(sel), "T" if raised else "F",
-                                       showpaths(after.keys()), showpaths(nroots)))
+        lines.append("cleanw %s %s%s %s %s %s" % ("B" if fmt == "2a" else "G", enc_opts(o), filter_mode(), layout,
+                                                  out_layout, targets))
+        outs.append("%s %s %s %s %s %s %s" % (extras, showpaths(sel), "T" if raised else "F",
+                                             showpaths(after.keys()), showpaths(nroots),
+                                             showpaths(out_after.keys()), hyp))
         if target != root:
             shutil.rmtree(target)
         elif after != before:
@@ -667,8 +819,11 @@ def detritus_corpus(rng):
     return sorted(names)
 
 
-def _sc(fmt, entries, rules=()):
-    return dict(fmt=fmt, entries=[list(e) for e in entries], rules=list(rules), ignore_versioned=False)
+def _sc(fmt, entries, rules=(), replace=()):
+    d = dict(fmt=fmt, entries=[list(e) for e in entries], rules=list(rules), ignore_versioned=False)
+    if replace:
+        d["replace"] = [list(r) for r in replace]
+    return d
 
 
 # fixed layouts, run first on every seed: one per repaired family and per mutant that needs a
@@ -702,6 +857,18 @@ SCENARIOS = [
     _sc("git", [["d", "d", False], ["d/v", "f", True], ["d/u.tmp", "f", False], ["d/k.o", "f", False],
                 ["lnk", "Lo", False], ["lf", "Lf", False], ["s", "d", False], ["s/.git", "gf", False],
                 ["s/x", "f", False]], ["*.o"]),
+    # a versioned directory that has become a link to a directory outside the tree (holding files
+    # the inventory / index does not know), a link into the tree, a file; git: a versioned file
+    # that has become a directory with an unknown file in it
+    _sc("2a", [["v", "f", True], ["vd", "d", True], ["vd/f", "f", True], ["vd/sub", "d", True], ["vd/sub/g", "f", True],
+               ["junk", "f", False], ["lnk", "Lo", False], ["w", "d", True], ["w/x~", "f", False]],
+        replace=[["vd", "Lo"]]),
+    _sc("2a", [["v", "f", True], ["p", "d", True], ["p/f", "f", True], ["q", "d", True], ["q/g", "f", True],
+               ["q/u", "f", False], ["r", "d", True], ["r/h", "f", True], ["z.tmp", "f", False]],
+        replace=[["p", "f"], ["q", "Li"], ["r", "Lx"]]),
+    _sc("git", [["gd", "d", False], ["gd/f", "f", True], ["vf", "f", True], ["junk", "f", False], ["l2", "Lo", False],
+                ["hd", "d", False], ["hd/f", "f", True], ["hd/k.o", "f", False]], ["*.o"],
+        replace=[["gd", "Lo"], ["vf", "d"], ["hd", "f"]]),
 ]
 
 
@@ -721,7 +888,7 @@ def run(ctx):
     n = ctx.pick(12, 120)
     for k in range(n):
         for fmt in ("2a", "git"):
-            specs.append(gen_spec(ctx.rng, fmt))
+            specs.append(gen_spec(ctx.rng, fmt, replace=True))
     for spec in specs:
         opts_list = [(u, i, d, r, None) for (u, i, d, r) in OPTS]
         u, i, d = ctx.rng.choice([(True, False, False), (True, True, True), (False, True, True)])
@@ -738,6 +905,14 @@ def run(ctx):
             viol.append((dict(det=nm), "is_detritus(%r) = %s" % (nm, o), None))
     ctx.diff([dict(det=nm) for nm in names], dl, do)
     ctx.count("detritus_names", len(names))
+    # controldir.is_control_filename (what the filter asks about every name) on a name corpus
+    from breezy import controldir
+    cn = sorted({pre + n + suf for n in (".bzr", ".git", ".hg", ".svn", "CVS", "_darcs", ".BZR", ".Git", "bzr", "git")
+                 for pre in ("", "a", ".", "x.") for suf in ("", "x", ".d", "ignore", "~", ".backup", " ")} - {""})
+    cn = [n for n in cn if " " not in n]
+    ctx.diff([dict(ctl=n) for n in cn], ["ctl " + n.encode("latin-1").hex() for n in cn],
+             ["T" if controldir.is_control_filename(n) else "F" for n in cn])
+    ctx.count("control_names", len(cn))
     # unclassified violations first, so that a new defect is never hidden behind a recorded family
     seen = set()
     for case, what, fam in sorted(viol, key=lambda v: (v[2] is not None,)):
@@ -756,6 +931,14 @@ def widen(ctx):
 
 
 def replay(ctx, case):
+    if "ctl" in case:
+        from breezy import controldir
+        nm = case["ctl"]
+        return dict(case=case, impl=controldir.is_control_filename(nm),
+                    model=ctx.model(["ctl " + nm.encode("latin-1").hex()])[0])
+    if "hypotheses" in case:
+        return dict(case=case, note="the generated layout violates a hypothesis of the theorems",
+                    impl=None, model=None)
     if "det" in case:
         from breezy.clean_tree import is_detritus
         nm = case["det"]
